@@ -1,7 +1,7 @@
 """Generators for glob / plain / dewey / alternate patterns and package names."""
 import vgen
 
-ALPHA = "abcxyz019-._+"
+ALPHA = "abcxyzABX019-._+"
 
 
 def lit(rng, n=None):
@@ -27,7 +27,7 @@ def glob_tokens(rng, maxtok=6):
             chars = []
             for _ in range(rng.randint(1, 3)):
                 if rng.random() < 0.5:
-                    a, b = sorted([rng.choice("abcdxyz0189"), rng.choice("abcdxyz0189")])
+                    a, b = sorted([rng.choice("abcdxyzAQZ0189"), rng.choice("abcdxyzAQZ0189")])
                     items.append(a + "-" + b)
                     chars.append((a, b))
                 else:
@@ -83,6 +83,8 @@ def edit(rng, s, alphabet=ALPHA):
         return rng.choice(alphabet)
     r = rng.random()
     i = rng.randrange(len(s))
+    if r < 0.12:
+        return s[:i] + s[i].swapcase() + s[i + 1:]  # case-sensitive?
     if r < 0.2:
         i = rng.choice([0, min(1, len(s) - 1)])     # where the quick reject looks
         return s[:i] + rng.choice(alphabet) + s[i + 1:]
